@@ -80,7 +80,8 @@ ViewE(w) == IF w = "db" THEN edges ELSE (edges \ tx[w].delE) \cup tx[w].setE
 Succ(E, S) == {e[3] : e \in {x \in E : x[1] \in S}}
 Pred(E, S) == {e[1] : e \in {x \in E : x[3] \in S}}
 ReachSet(E, S) == LET F[i \in 0..N] == IF i = 0 THEN Succ(E, S)
-                                        ELSE F[i-1] \cup Succ(E, F[i-1]) IN F[N]
+                                        ELSE LET prev == F[i-1] IN prev \cup Succ(E, prev)
+                 IN F[N]
 Reach(E, r) == ReachSet(E, {r})
 AcyclicE(E) == \A r \in Res : r \notin Reach(E, r)
 ClosesCycle(E, f, t) == f = t \/ f \in Reach(E, t)
@@ -159,6 +160,11 @@ DeleteManyResources(w, S) ==
 PropOK(R, E, f, ty, S) ==
   /\ f \in R /\ S \subseteq R
   /\ \A t \in S : <<f, ty, t>> \in E \/ ~ClosesCycle(E, f, t)
+\* refusal classes the property justifies (a self-loop on a missing resource is both):
+\* which of them the code returns is not a statement of C16
+Refusals(R, E, f, ty, S) ==
+  (IF f \notin R \/ ~(S \subseteq R) THEN {"notfound"} ELSE {}) \cup
+  (IF \E t \in S : <<f, ty, t>> \notin E /\ ClosesCycle(E, f, t) THEN {"cyclic"} ELSE {})
 DefineRelationship(w, f, ty, t) ==
   LET R == ViewR(w)  E == ViewE(w)
       cls == IF <<t, ty, f>> \in E /\ (f # t \/ ~SelfLoopRefused) THEN "cyclic"
